@@ -100,3 +100,21 @@ CLAIMED.update({
             "Trusted: Coq kernel; the release binary built from /repo without any cfg; unshare -m + tmpfs on /run; clap's parsing observed only through the binary.",
             "DESIGN.md section 6, C19"),
 })
+
+FILE_NOTE = ("Trusted: Coq kernel; Shm/Layout.v as the transcription of docs/PROTOCOL.md and the independent PROTOCOL table of the Python oracle; Linux file/mmap semantics as "
+             "modelled in Shm/Open.v (a mapping beyond EOF reads zeros and is not written back; open(2) of a directory succeeds and read(2) fails with EISDIR); the C compiler's "
+             "reading of clockbound.h; the 4 trailing padding bytes of the record (68..71) are not specified by PROTOCOL.md and are not compared (the daemon copies uninitialised "
+             "struct padding there). Crash points inside wipe() are represented by the truncation corpus (every length 0..80), not by killing a process.")
+
+CLAIMED.update({
+    "C16": ("Coq proof (open succeeds iff the header conditions hold; error table; repair theorems for re-created and taken-over files over all byte contents) + correspondence of "
+            "three open APIs (ShmReader::new, ClockBoundClient::new_with_path, clockbound_open) and of the real ShmWriter::new+write on a structured file corpus on the disk file system",
+            "Machine-checked: C16_open_iff, C16_error_table, C16_repair_recreated (any content a client could not open, missing file included: exactly the documented 72 bytes afterwards, "
+            "openable, record read back), C16_repair_taken_over (openable content: taken over in place, extended to 72 bytes when shorter, magic/size and bytes beyond 72 untouched).",
+            FILE_NOTE, "DESIGN.md section 6, C16"),
+    "C17": ("Coq proof (encode/decode round trip and field offsets of the transcribed layout, for every record) + byte-level correspondence of what the real daemon path writes + a C "
+            "program compiled against clockbound.h and linked with the freshly built libclockbound.so compared with the Rust client on the same files at the same virtual instant",
+            "Machine-checked: C17_total_size, C17_header_fields, C17_record_round_trip, C17_header_round_trip. The proof part is thin by nature (the model is the transcription of the "
+            "document); the assurance is in the correspondence: bytes at PROTOCOL.md offsets = published record, C result = Rust result = model on every file, C struct layout = header.",
+            FILE_NOTE, "DESIGN.md section 6, C17"),
+})
